@@ -37,6 +37,12 @@ type sOptStruct struct { // optional pointer to a struct: nil is written as c0
 	P *sSmall `rlp:"nil"`
 	U uint
 }
+type sOptArr1 struct { // the same, single field (reachable by 2-byte inputs)
+	P *[2]byte `rlp:"nil"`
+}
+type sOptStruct1 struct {
+	P *sSmall `rlp:"nil"`
+}
 type sBig struct {
 	P *big.Int
 	S string
@@ -50,6 +56,7 @@ type sPair struct{ K, V string }
 type target struct {
 	name string
 	prim bool               // low-level codec target: decode(b)=v  =>  encode(v)=b is asserted
+	// (fingerprints of targets that exercise one mechanism are grouped, see fpGroup)
 	mk   func() interface{} // fresh pointer to decode into (maps pre-made exactly where the repo's callers pre-make them)
 }
 
@@ -85,6 +92,8 @@ func primTargets() []target {
 		{"struct{uint;tail[]uint}", true, func() interface{} { return new(sTail) }},
 		{"struct{opt*[2]byte;uint}", true, func() interface{} { return new(sOptArr) }},
 		{"struct{opt*struct;uint}", true, func() interface{} { return new(sOptStruct) }},
+		{"struct{opt*[2]byte}", true, func() interface{} { return new(sOptArr1) }},
+		{"struct{opt*struct}", true, func() interface{} { return new(sOptStruct1) }},
 		{"struct{*big.Int;string}", true, func() interface{} { return new(sBig) }},
 		{"struct{[1]byte;[]byte}", true, func() interface{} { return new(sArr1) }},
 		{"interface{}", true, func() interface{} { return new(interface{}) }},
@@ -173,9 +182,7 @@ func nonCanonClass(in, enc []byte) string {
 		return "empty-input-accepted"
 	case len(enc) < len(in) && bytes.HasPrefix(in, enc):
 		return "trailing-bytes-accepted"
-	case len(in) < len(enc):
-		return "missing-element-accepted"
-	case len(in) > 0 && (in[0] >= 0xb8 && in[0] <= 0xbf || in[0] >= 0xf8):
+	case nonMinimalHead(in):
 		return "non-minimal-length-prefix"
 	case len(in) == len(enc):
 		for i := range in {
@@ -189,10 +196,48 @@ func nonCanonClass(in, enc []byte) string {
 				break
 			}
 		}
-		return "other-same-length"
+		return "same-length-other-item"
+	case len(in) < len(enc):
+		return "shorter-input(missing-or-short-item)"
 	default:
-		return "other"
+		return "longer-input"
 	}
+}
+
+// nonMinimalHead: the outermost header uses the long form for a size < 56 or has a zero length byte.
+func nonMinimalHead(in []byte) bool {
+	b := in[0]
+	var ll int
+	switch {
+	case b >= 0xb8 && b <= 0xbf:
+		ll = int(b - 0xb7)
+	case b >= 0xf8:
+		ll = int(b - 0xf7)
+	default:
+		return false
+	}
+	if len(in) < 1+ll {
+		return true
+	}
+	if in[1] == 0 {
+		return true
+	}
+	var size uint64
+	for _, c := range in[1 : 1+ll] {
+		size = size<<8 | uint64(c)
+	}
+	return size < 56
+}
+
+// fpGroup: one fingerprint per mechanism rather than per synthetic target type.
+func fpGroup(target, class string) string {
+	switch {
+	case strings.HasPrefix(target, "struct{opt*") && (class == "empty-list-accepted-for-empty-string" || class == "empty-string-accepted-for-empty-list"):
+		return "optional-pointer(rlp:nil)/nil-accepts-both-80-and-c0"
+	case target == "struct{[1]byte;[]byte}":
+		return "one-byte-array-then-field/" + class
+	}
+	return target + "/" + class
 }
 
 // decodeOne is the decoder-side oracle for one (target, input).
@@ -230,7 +275,7 @@ func decodeOne(a *acc, t *target, in []byte, family string) {
 	case t.prim:
 		cl := nonCanonClass(in, enc)
 		a.outcomes[t.name+"/ok-noncanonical:"+cl]++
-		a.violate("C14/codec-noncanonical/"+t.name+"/"+cl,
+		a.violate("C14/codec-noncanonical/"+fpGroup(t.name, cl),
 			fmt.Sprintf("low-level codec accepts a second encoding for %s: decode(%x) succeeds and the value encodes as %x", t.name, in, enc),
 			replayCase{Kind: "decode", Target: t.name, Hex: hx(in)}, len(in))
 	default:
